@@ -207,6 +207,9 @@ func main() {
 	} else {
 		cfgs = append(cfgs, cfg{"", "jitter0.3*2^20", 0.3, 1 << 20, 0, 0, 4}, cfg{"", "jitter0.3+offset(4096,-8192)", 0.3, 1, 4096, -8192, 4})
 	}
+	// nearly horizontal edges (y one ulp apart) at the origin and at coordinates of 1e4
+	cfgs = append(cfgs, cfg{"y1ulp", "jitter0.3,pairs-1ulp-apart-in-y", 0.3, 1, 0, 0, 4}, cfg{"y1ulp", "jitter0.3,pairs-1ulp-apart-in-y+offset(10004,10004)", 0.3, 1, 10004, 10004, 4},
+		cfg{"y1ulp", "jitter0.3,pairs-1ulp-apart-in-y+offset(-16384,8192)", 0.3, 1, -16384, 8192, 4})
 	// far from the origin in every quadrant direction (the triangulation must not depend on where the set lies)
 	cfgs = append(cfgs, cfg{"", "jitter0.3+offset(0,32768)", 0.3, 1, 0, 32768, 4}, cfg{"", "jitter0.3+offset(-65536,16384)", 0.3, 1, -65536, 16384, 4}, cfg{"", "jitter0.3+offset(32768,0)", 0.3, 1, 32768, 0, 4})
 	for _, cf := range cfgs {
@@ -219,6 +222,8 @@ func main() {
 		}
 		for i := 0; i+1 < len(pts); i += 2 {
 			switch cf.pair {
+			case "y1ulp": // pairs of points whose y differs in the last bit only (a nearly horizontal edge)
+				pts[i+1].Y = math.Nextafter(pts[i].Y, math.Inf(1))
 			case "y":
 				pts[i+1].Y = pts[i].Y
 			case "x":
@@ -272,6 +277,27 @@ func main() {
 			if err != nil {
 				c.Violation("Delaunay2d|error", fmt.Sprintf("%s %v: error %v", cf.name, S, err), rep(nil))
 				return
+			}
+			// the result belongs to the caller: work on a copy and make sure the original is still the same at the end
+			// (another call - later, or concurrent in this parallel loop - must not change it)
+			returned := fast
+			fast = append(render.TriangleISet{}, fast...)
+			defer func() {
+				same := len(returned) == len(fast)
+				for i := 0; same && i < len(fast); i++ {
+					same = returned[i] == fast[i]
+				}
+				if !same {
+					c.Violation("Delaunay2d|result-changed-by-a-later-call", fmt.Sprintf("%s %v: the returned set changed while other triangulations were computed", cf.name, S), rep(nil))
+				}
+			}()
+			for _, t := range fast {
+				for _, ix := range t {
+					if ix < 0 || ix >= n {
+						c.Violation("Delaunay2d|vertex-index-out-of-range", fmt.Sprintf("%s %v: triangle %v refers to vertex %d of %d", cf.name, S, t, ix, n), rep(map[string]any{"fast": fast}))
+						return
+					}
+				}
 			}
 			// after the call `in` is sorted by x (ties in unspecified order): map result indices to ours
 			loc := make([]int, n)
@@ -488,6 +514,15 @@ func main() {
 							}
 							return o
 						}
+						// the results as returned (vertex numbering mapped, winding untouched): the library's own test compares
+						// them with Equals, so both implementations must wind their triangles the same way
+						raw := make(render.TriangleISet, len(fast))
+						for i, t := range fast {
+							raw[i] = render.TriangleI{loc[t[0]], loc[t[1]], loc[t[2]]}
+						}
+						if !raw.Equals(append(render.TriangleISet{}, slow...)) {
+							c.Violation("TriangleISet.Equals|fast-and-slow-results-wind-their-triangles-differently", fmt.Sprintf("%s %v: Equals(fast, slow) is false on the results as returned: fast %v slow %v", cf.name, S, raw, slow), rep(map[string]any{"fast": fast, "slow": slow}))
+						}
 						cmp++
 						if !norm(fast, loc).Equals(norm(slow, nil)) {
 							c.Violation("TriangleISet.Equals|false-for-equal-sets(real triangulations)", fmt.Sprintf("%s %v: Equals(fast, slow) false although both are the same set: fast %v slow %v", cf.name, S, fast, slow), rep(map[string]any{"fast": fast, "slow": slow}))
@@ -623,6 +658,43 @@ func main() {
 	states += int64(len(sets))
 	trans += eqCalls
 	samples = append(samples, map[string]any{"equals_sets": len(sets), "real_triangulations": len(keys), "example": triples[:3]})
+	// histories: a result that is kept while further triangulations are computed must not change (the result
+	// belongs to the caller), for the fast and the reference implementation, smaller / equal / larger second sets
+	{
+		mkSet := func(n int, seed int) v2.VecSet {
+			vs := make(v2.VecSet, n)
+			for i := range vs {
+				jx, jy := jitter(i*7 + seed)
+				vs[i] = v2.Vec{X: float64(i%4) + 0.3*jx, Y: float64(i/4) + 0.3*jy}
+			}
+			return vs
+		}
+		for _, impl := range []string{"Delaunay2d", "Delaunay2dSlow"} {
+			call := func(vs v2.VecSet) (render.TriangleISet, error) {
+				if impl == "Delaunay2d" {
+					return render.Delaunay2d(vs)
+				}
+				return render.Delaunay2dSlow(vs)
+			}
+			for _, sizes := range [][2]int{{9, 5}, {9, 9}, {6, 12}, {12, 3}} {
+				first, err := call(mkSet(sizes[0], 1))
+				if err != nil {
+					continue
+				}
+				saved := append(render.TriangleISet{}, first...)
+				_, _ = call(mkSet(sizes[1], 5))
+				_, _ = call(mkSet(4, 9))
+				states++
+				same := len(saved) == len(first)
+				for i := 0; same && i < len(saved); i++ {
+					same = saved[i] == first[i]
+				}
+				if !same {
+					c.Violation(impl+"|result-changed-by-a-later-call", fmt.Sprintf("%s of %d points: the returned set changed after triangulating %d and 4 other points", impl, sizes[0], sizes[1]), map[string]any{"implementation": impl, "first_set": sizes[0], "second_set": sizes[1], "kept_result": saved, "now": first})
+				}
+			}
+		}
+	}
 	c.Guard(">=20 distinct (n,h,t) shape classes of point subsets", nontrivial.Len() >= 20, fmt.Sprint(nontrivial.Len()))
 	c.Guard(">=5 distinct real triangulations permuted", len(keys) >= 5, fmt.Sprint(len(keys)))
 
